@@ -1,16 +1,45 @@
 """C09 - CPCA super scores are the PCA scores of the block-scaled concatenated data.
 
 Mode 3 (ledger) relating two recorded models and an oracle.
-(M)  Cpca.tla: an ideal CPCA over small integer block budgets; the ledger (cumulative block variances within [0,100] and
-     non-decreasing, total = share-weighted blocks, totals non-increasing and summing to <= 100) accepts every ideal run and
-     rejects three injected faults.
-(C)  c09_drv fits the real CPCA() on multi-block data whose block-scaled concatenation has a known separated spectrum,
-     computes the reference PCA scores itself (long-double Jacobi on the block-scaled concatenation, cross-checked with LAPACK
-     dsyev), re-projects the training tensor with CPCAScorePredictor, also runs the library's PCA on the concatenation, and
-     TLC validates every model against TraceCpca.tla with bounds it computes from the logged spectrum (CPCA criterion
-     eps = sqrt(n*1e-18), floor 1e-7; PCA criterion for the PcaRef comparison).
+(M)   Cpca.tla: an ideal CPCA over small integer block budgets - blocks with constant variables (live budget below the width) and zero
+      blocks included; the ledger (cumulative block variances within [0,100] and non-decreasing, total = share-weighted blocks, totals
+      non-increasing and summing to <= 100, total = the oracle's share) accepts every ideal run and rejects four injected faults
+      (not_cumulative, over_100, total_unrelated, trace_by_width = sums of squares derived from the block width).  The slicing of the
+      threaded kernel (KernelSlices) is shown to hand every index to exactly one worker for every length / processor count in scope.
+(GEN) CpcaGen.tla: TLC enumerates the multi-block shapes <<n, widths, nproc>>, proves each inside the quantifier (PropFitC) and sliced
+      soundly, and emits it with its input-class tags (INPUT-CLASSES.md K1, K2, K6); the stratified cases are drawn from these emits,
+      and the shapes of ALL executed cases (random sweep included) are tagged by a second run of the same module.
+(C)   c09_drv fits the real CPCA() on multi-block data whose block-scaled concatenation has a known separated spectrum,
+      computes the reference PCA scores itself (long-double Jacobi on the block-scaled concatenation, cross-checked with LAPACK
+      dsyev), re-projects the training tensor with CPCAScorePredictor (also into outputs that are already sized), also runs the
+      library's PCA on the concatenation, and TLC validates every model against TraceCpca.tla with bounds it computes from the
+      logged spectrum (CPCA criterion eps = sqrt(n*1e-18), floor 1e-7; PCA criterion for the PcaRef comparison).
+
+Clause table (statement of C09 -> operator of Cpca.tla that decides it -> trace action / event field that carries it):
+  1 super score k = +-PCA score k of the identically preprocessed, sqrt(width)-scaled, concatenated blocks
+        PropTruth (oracle, bound bTc[k])          TTruth   <- Truth.dist
+        PropPcaRef (library PCA, bTc[k] + bTp[k])  TPcaRef  <- PcaRef.dist
+  2 total explained variance of component k = that PCA's explained variance
+        PropTruth (EvTolC9, lambda_k / trace of the harness's own oracle)   TTruth  <- Truth.tvErr
+        PropPcaRef (TolEig, library PCA)                                    TPcaRef <- PcaRef.varexp against the ledger's curTotal
+  3 super score = block scores x super weights                 PropSuper      TCpca <- Cpca.superErr
+  4 block explained variances are cumulative                   PropBlockVar   TCpca <- Cpca.blockVar vs Cpca.blockRef (1 - |E_b^(k)|^2/|E_b|^2 recomputed by the
+                                                                               harness from the stored super scores and block loadings; skipped for a zero block, Shares.nz)
+                                                               PropTruthBlocks TTruth <- Truth.blockTruth (share of block b inside the span of the first k ORACLE scores: independent
+                                                                               of the model's scores and loadings) against the ledger's prevBlock
+  5 ... within [0,100]                                         PropBlockVar   TCpca <- Cpca.blockVar
+  6 ... non-decreasing                                         PropBlockVar   TCpca <- Cpca.blockVar against the ledger's prevBlock
+  7 projecting the training tensor through the model reproduces the super scores
+        PropProj (n x npc whatever the output held before)     TProj  <- Proj.rows, Proj.cols
+        PropReproj (bound bTc[k])                              TCpca  <- Cpca.reproj
+        PropProj2 (fewer components requested -> the leading ones)  TProj2 <- Proj2.req, rows, cols, err
+  consequences: PropTotal / PropShare (ledger identities), PropScale (unit of the data, TScale), PropAgain (what the process fitted before, TAgain),
+  PropSlices (every index of a threaded product has one worker, TSlices), PropFitC (the recorded case lies inside the quantifier, TFit).
+  Impl layer (SPEC-DRIFT only): super weights normalised, predicted block scores = stored ones (Cpca.wnorm, Cpca.reprojB), block-score tensor shape
+  (Proj.order/brows/bcols), the threaded kernel is used and cuts as KernelSlices (Mt, Slices), NIPALS passes observed (Iters), repeated fit bitwise equal (Again.bit).
+  Outside the statement (EXTRA-FINDING only): CPCA() into a model object that already holds a fit (TRefit <- Refit).
 """
-import math, os, shutil
+import math, os, random, shutil
 from concurrent.futures import ThreadPoolExecutor
 from vf import build, tlc, trace
 from vf import run as hrun
@@ -18,16 +47,28 @@ from vf.core import InfraError
 
 LEVEL = "exploration"
 READY = True
-TECHNIQUE = ("TLC model checking of the CPCA block-variance ledger (Cpca.tla: ideal runs accepted, three faults rejected) + TLC trace validation of ledgers recorded "
+W = max(1, min(6, int(os.environ.get("VERIF_WORKERS", "6"))))
+TLC_WORKERS = int(os.environ["VERIF_WORKERS"]) if os.environ.get("VERIF_WORKERS") else 8
+TECHNIQUE = ("TLC model checking of the CPCA block-variance ledger (Cpca.tla: ideal runs with constant variables and zero blocks accepted, four faults rejected, threaded-kernel slicing "
+             "sound) + TLC-enumerated shape classes (CpcaGen.tla, every shape proved inside the quantifier and tagged K1/K2/K6) + TLC trace validation of ledgers recorded "
              "from the real CPCA/CPCAScorePredictor against an eigen-decomposition of the block-scaled concatenation computed by the harness (long-double Jacobi, "
              "LAPACK dsyev) and against the library's own PCA, with criterion-implied bounds computed by TLC")
 LEVEL_TEXT = ("Sampled inputs: 2..4 blocks x 1..8 variables, 5..30 objects, scalings 0..5, 1..min-width components, separated spectra over data magnitudes 1e-8..1e6 (scaling 0; 1..1e3 for the normalising options) are fitted by the "
               "real CPCA(); TLC validates per component that the super score equals +- the oracle PCA score of the identically preprocessed, sqrt(width)-scaled concatenation "
               "within the CPCA criterion's bound, that total explained variance equals that PCA's, super = block scores x super weights, block variances are cumulative, "
-              "monotone, within [0,100] and consistent with the total, and that projecting the training tensor reproduces the super scores.")
+              "monotone, within [0,100] and consistent with the total, and that projecting the training tensor reproduces the super scores. Stratified classes on every run: "
+              "width-1 blocks, blocks wider than the object count, n = M+-1, rank-limited component counts (K1), a constant variable inside a block for EVERY scaling option at "
+              "representable and non-representable values, a whole constant block, duplicated objects / variables (K5/K8), column offsets 1e4..1e7 x the spread (K3), per-block unit systems "
+              "1e-6..1e6 (K4), forced processor counts 2, 3, 16 (5, 24 thorough) with widths / blocks / objects below the count and the recorded slicing checked against the model (K6), "
+              "other fits before the fit under test in one process with address reuse, the same data fitted again, projection into outputs already sized (K7).")
 LEVEL_NOTE = ("Exploration, not exhaustive. Trusts TLC, the harness's construction of the reference (MatrixPreprocess per block as the definition of 'preprocessed identically', "
-              "long-double Jacobi cross-checked against dsyev on every model), its residual evaluation and quantisation (binding self-test). The comparison against the "
-              "library's own PCA inherits PCA's looser criterion and any PCA defect (finding F11).")
+              "long-double Jacobi cross-checked against dsyev on every model), its residual evaluation and quantisation (binding self-tests). The comparison against the "
+              "library's own PCA inherits PCA's looser criterion and any PCA defect (finding F11). Classes the quantifier excludes (not generated, or Dropped and counted): K9 missing values "
+              "(the statement does not mention them), K10 label alphabets (none), near-constant variables with 1e-3 <= spread < 1.2e-2 and block magnitudes below 1 under the normalising options "
+              "(the zero-scale guard of MatrixPreprocess decides: C10), components beyond the numerical rank and unseparated spectra (C18 / 'separated spectra'), data values at the missing code 99999999, "
+              "concurrent callers. A second CPCA() into a model object that already holds a fit is outside the statement (the history of the model object is not quantified): EXTRA-FINDING only.")
+
+CLS_FIELDS = ("cc", "off", "hist", "sized", "deg")
 
 
 def _ncmp(sig2):
@@ -52,117 +93,406 @@ def _bounds_t(sig2, eps, K=30.0):
     return bt
 
 
-def _ceil_sqrt(x):
-    r = math.isqrt(x)
-    return r if r * r == x else r + 1
-
-
+# ------------------------------------------------------------------------------------------------ (M) ledger model
 def _model_checks(ctx):
-    cfg = "MC_Cpca_quick.cfg" if ctx.quick else "MC_Cpca_thorough.cfg"
-    r = tlc.run("Cpca", cfg, timeout=1500)
-    ctx.add_tlc(r, "mc_cpca_ledger")
-    if not r.ok:
-        raise InfraError("Cpca.tla: the ledger rejects an ideal CPCA run (%s):\n%s" % (r.violation, r.trace_text[:1500]))
-    z = r.zero_actions(ignore=("CInit",))
-    if z:
-        raise InfraError("Cpca.tla model: actions never taken: %s" % z)
+    cfgs = ["MC_Cpca_quick.cfg", "MC_Cpca_zero.cfg"] + ([] if ctx.quick else ["MC_Cpca_thorough.cfg", "MC_Cpca_thorough4.cfg"])
+    states = 0
+
+    def mc(cfg):
+        return cfg, tlc.run("Cpca", cfg, timeout=1500, workers=2)
+    with ThreadPoolExecutor(2) as ex:
+        for cfg, r in ex.map(mc, cfgs):
+            ctx.add_tlc(r, "mc_cpca_ledger_" + cfg[8:-4])
+            if not r.ok:
+                raise InfraError("Cpca.tla (%s): the ledger rejects an ideal CPCA run (%s):\n%s" % (cfg, r.violation, r.trace_text[:1500]))
+            z = r.zero_actions(ignore=("CInit",))
+            if z:
+                raise InfraError("Cpca.tla model (%s): actions never taken: %s" % (cfg, z))
+            states += r.distinct
     rd = tlc.rundir()
     try:
         base = open(os.path.join(tlc.SPEC, "MC_Cpca_quick.cfg")).read()
-        faults = ["not_cumulative", "over_100", "total_unrelated"]
+        faults = ["not_cumulative", "over_100", "total_unrelated", "trace_by_width"]
 
         def one(f):
             p = os.path.join(rd, "fault_%s.cfg" % f)
             open(p, "w").write(base.replace('CFault = "none"', 'CFault = "%s"' % f))
             return f, tlc.run("Cpca", p, timeout=600, workers=2, coverage=False)
-        with ThreadPoolExecutor(3) as ex:
+        with ThreadPoolExecutor(2) as ex:
             for f, rf in ex.map(one, faults):
                 ctx.add_tlc(rf, "mc_cpca_fault_%s" % f)
                 if rf.ok or rf.violation != "CLedgerAccepts":
-                    raise InfraError("Cpca.tla: injected fault %s is not rejected by the ledger (vacuous)" % f)
+                    raise InfraError("Cpca.tla: injected fault %s is not rejected by the ledger (vacuous): %s" % (f, rf.violation))
     finally:
         shutil.rmtree(rd, ignore_errors=True)
-    ctx.note("ledger model: %d states, ideal runs accepted; faults not_cumulative, over_100, total_unrelated rejected" % r.distinct)
+    ctx.note("ledger model: %d states over %d budgets (constant variables, zero blocks), ideal runs accepted, kernel slicing sound; faults %s rejected" % (states, len(cfgs), ", ".join(faults)))
 
 
-def _record(ctx, exe, rd, plan, timeout=2400):
-    jobs = [[os.path.join(rd, "c09_%d.ndjson" % i), "sweep", sd & 0x3FFFFFFF, cnt, nproc] for i, (sd, cnt, nproc) in enumerate(plan)]
-    res = hrun.run_many(exe, jobs, timeout=timeout, workers=6)
+# ------------------------------------------------------------------------------------------------ (GEN) shapes and their class tags
+def _gen(ctx):
+    r = tlc.run("CpcaGen", "MC_CpcaGen_quick.cfg" if ctx.quick else "MC_CpcaGen_thorough.cfg", timeout=1500, workers=TLC_WORKERS, coverage=False)
+    ctx.add_tlc(r, "gen_cpca_shapes")
+    if not r.ok:
+        raise InfraError("CpcaGen.tla: %s fails for an enumerated shape:\n%s" % (r.violation, r.trace_text[:1500]))
+    shapes = {}
+    for e in r.emits:
+        shapes[(e["n"], tuple(e["w"]), e["np"])] = tuple(sorted(e["tags"]))
+    if len(shapes) < 500:
+        raise InfraError("CpcaGen emitted only %d shapes" % len(shapes))
+    ctx.note("GEN: %d shapes <<n, widths, nproc>> proved inside the quantifier and sliced soundly, %d distinct class tags" % (len(shapes), len({t for v in shapes.values() for t in v})))
+    return shapes
+
+
+def _tag_shapes(ctx, keys):
+    """class tags of the shapes that were really executed, from the same TLA+ definitions (ShapeTags of CpcaGen.tla)"""
+    rd = tlc.rundir()
+    try:
+        sp = os.path.join(rd, "shapes.ndjson")
+        with open(sp, "w") as f:
+            for n, w, np_ in sorted(keys):
+                f.write('{"n":%d,"w":[%s],"np":%d}\n' % (n, ",".join(str(x) for x in w), np_))
+        p = os.path.join(rd, "taglist.cfg")
+        open(p, "w").write(open(os.path.join(tlc.SPEC, "MC_CpcaGen_quick.cfg")).read().replace('GenTier = "quick"', 'GenTier = "list"'))
+        r = tlc.run("CpcaGen", p, timeout=900, workers=2, coverage=False, env=dict(SHAPES=sp))
+        ctx.add_tlc(r, "gen_cpca_tag_executed_shapes")
+        if not r.ok:
+            raise InfraError("CpcaGen.tla (list): %s fails for an executed shape:\n%s" % (r.violation, r.trace_text[:1500]))
+        out = {(e["n"], tuple(e["w"]), e["np"]): tuple(sorted(e["tags"])) for e in r.emits}
+        miss = [k for k in keys if k not in out]
+        if miss:
+            raise InfraError("CpcaGen (list) did not tag %d executed shapes, e.g. %s" % (len(miss), miss[:3]))
+        return out
+    finally:
+        shutil.rmtree(rd, ignore_errors=True)
+
+
+def _job(rng, shape, **over):
+    n, w, np_ = shape
+    minw = min(w)
+    sc = over.get("scaling", rng.randint(0, 5))
+    mx = max(1, min(minw, n - 1))
+    j = dict(seed=rng.randrange(1, 2 ** 30), n=n, w=list(w), nproc=np_, scaling=sc, npc=rng.randint(1, mx), cc=0, off=0, bm=[0] * len(w), hist=0, sized=0, deg=0)
+    j.update(over)
+    if j["npc"] > mx:
+        j["npc"] = mx
+    if "dec" not in over:
+        lo, hi = (-8, 6) if sc == 0 else (0, 3)
+        if sc == 0:
+            lo = max(lo, -9 - min(j["bm"]))
+            hi = min(hi, 9 - max(j["bm"]), 13 - j["off"] - max(j["bm"]))
+        else:
+            lo = max(lo, 0 - min(j["bm"]))
+            hi = min(hi, 9 - max(j["bm"]), 13 - j["off"] - max(j["bm"]))
+        j["dec"] = rng.randint(lo, max(lo, hi))
+    return j
+
+
+def _line(j):
+    return " ".join(str(x) for x in [j["seed"], j["n"], j["scaling"], j["npc"], j["dec"], j["nproc"], len(j["w"])] + j["w"] + [j["cc"], j["off"]] + j["bm"] + [j["hist"], j["sized"], j["deg"]])
+
+
+def _plan(ctx, shapes):
+    """the stratified class cases (INPUT-CLASSES.md) drawn from the shapes TLC emitted; returns dict group -> list of jobs"""
+    rng = random.Random(ctx.seed * 7919 + 17)
+    q = ctx.quick
+    one = sorted(k for k in shapes if k[2] == 1)
+    by_tag = {}
+    for k in one:
+        for t in shapes[k]:
+            by_tag.setdefault(t, []).append(k)
+    has2 = [k for k in one if max(k[1]) >= 2]
+    small = [k for k in has2 if sum(k[1]) <= 16]
+    mult = 1 if q else 12
+    plan = {}
+    # K1 / K2: every shape tag TLC knows, a couple of shapes each (the largest shape once: it is the slowest)
+    g = []
+    for t in sorted(by_tag):
+        if t.startswith("K6"):
+            continue
+        for i in range((1 if t == "K1:largest-shape" else 2) * mult):
+            sh = rng.choice(by_tag[t])
+            mx = max(1, min(min(sh[1]), sh[0] - 1))
+            g.append(_job(rng, sh, npc=(1, mx, rng.randint(1, mx))[i % 3]))
+    plan["K1K2-shapes"] = g
+    # K5 / K8: a constant variable inside a block - EVERY scaling option x every constant kind; a whole constant block per scaling option
+    g = []
+    for rep in range(mult):
+        for sc in range(6):
+            for cc in range(1, 7):
+                pool = small if (sc + cc + rep) % 3 else [k for k in has2 if "K1:block-wider-than-n" in shapes[k] or "K1:width1-block" in shapes[k]]
+                g.append(_job(rng, rng.choice(pool), scaling=sc, cc=cc))
+            g.append(_job(rng, rng.choice(small), scaling=sc, cc=7))
+    plan["K5K8-constant-variable"] = g
+    # K8: duplicated objects / variables
+    g = []
+    for i in range(12 * mult):
+        g.append(_job(rng, rng.choice(small), deg=1 + i % 3, scaling=(i // 3) % 6))
+    plan["K8-duplicates"] = g
+    # K3: column offsets 1e4 .. 1e7 x the decade (|mean| / spread up to ~1e8), every scaling option; some with a constant variable as well
+    g = []
+    offs = [4, 6, 7]
+    for i in range(24 * mult):
+        sc = i % 6
+        g.append(_job(rng, rng.choice(small), scaling=sc, off=offs[(i // 6 + i) % 3], cc=(rng.randint(1, 6) if i % 4 == 3 else 0)))
+    plan["K3-offsets"] = g
+    # K4: blocks in different unit systems (scaling 0: 1e-6 .. 1e6 between blocks; normalising options: 1 .. 1e6), large whole-input magnitudes for the normalising options
+    g = []
+    for i in range(20 * mult):
+        sh = rng.choice(small)
+        sc = [0, 0, 1, 2, 3, 4, 5, 0, 1, 2, 3, 4, 5, 1, 2, 4, 5, 0, 3, 1][i % 20]
+        B = len(sh[1])
+        if sc == 0:
+            bm = [rng.choice([-6, -3, 0, 3, 6]) for _ in range(B)]
+            if max(bm) - min(bm) < 6:
+                bm[0], bm[-1] = -3, 3 if i % 2 else 6
+        else:
+            bm = [rng.choice([0, 2, 4, 6]) for _ in range(B)]
+            if max(bm) == min(bm):
+                bm[rng.randrange(B)] = 6 if bm[0] != 6 else 0
+        g.append(_job(rng, sh, scaling=sc, bm=bm, cc=(rng.randint(1, 6) if i % 5 == 4 else 0)))
+    for i in range(5 * mult):
+        g.append(_job(rng, rng.choice(small), scaling=1 + i % 5, dec=4 + i % 3))
+    plan["K4-magnitudes"] = g
+    # K7: histories in one process; projection into outputs that are already sized
+    g = []
+    for i in range(12 * mult):
+        g.append(_job(rng, rng.choice(small), hist=1, scaling=i % 6, sized=(i % 4 if i % 2 else 0), cc=(rng.randint(1, 6) if i % 6 == 5 else 0)))
+    plan["K7-histories"] = g
+    g = []
+    for i in range(9 * mult):
+        g.append(_job(rng, rng.choice(one), sized=1 + i % 3))
+    plan["K7-sized-outputs"] = g
+    # K6: forced processor counts; shapes by K6 tag; few components (the kernel spawns nproc threads per product)
+    nps = sorted({k[2] for k in shapes if k[2] > 1})
+    g = []
+    for np_ in nps:
+        mt = sorted(k for k in shapes if k[2] == np_)
+        tg = {}
+        for k in mt:
+            for t in shapes[k]:
+                if t.startswith("K6"):
+                    tg.setdefault(t, []).append(k)
+        cnt = {2: 9, 3: 9, 5: 6, 16: 9, 24: 4}.get(np_, 4) * (1 if q else 6)
+        tags = sorted(tg)
+        for i in range(cnt):
+            pool = [k for k in tg[tags[i % len(tags)]] if sum(k[1]) <= 20 and (np_ < 16 or k[0] <= 17)] or tg[tags[i % len(tags)]]
+            sh = rng.choice(pool)
+            mx = max(1, min(min(sh[1]), sh[0] - 1, 2))
+            g.append(_job(rng, sh, npc=rng.randint(1, mx), scaling=i % 6, cc=(rng.randint(1, 6) if i % 4 == 1 and max(sh[1]) >= 2 else 0)))
+    plan["K6-processors"] = g
+    return plan
+
+
+# ------------------------------------------------------------------------------------------------ (C) recording
+def _check_run(ctx, h, ev):
+    if h.san:
+        blk = next((b for b in tlc.split_blocks(ev) if any(e.get("e") == "Abort" and e.get("rc") in (98, 99) for e in b)), None) or (tlc.split_blocks(ev) or [[]])[-1]
+        fit = next((e for e in blk if e.get("e") == "Fit"), {})
+        ctx.violation("CPCA:%s" % h.san, "sanitizer report while fitting %s:\n%s" % (fit, h.err[:1500]), _case_of(fit))
+    if h.timed_out:
+        raise InfraError("c09 harness timed out")
+    if h.rc != 0 and not h.san:
+        raise InfraError("c09 harness failed rc=%d\n%s" % (h.rc, h.err[-800:]))
+    if not any(e.get("e") == "Summary" for e in ev):
+        raise InfraError("c09 harness wrote no Summary")
+    if any(e.get("e") == "Abort" and e.get("why") == "watchdog" for e in ev):
+        raise InfraError("c09 harness: wall-clock watchdog fired without the iteration budget (machine load)")
+
+
+def _record(ctx, exe, rd, sweep, groups, mode="jobs", timeout=2400, extra=False):
+    """run the random sweeps and the planned class cases (every group cut into files of a few dozen jobs) under ONE pool of W processes;
+    histories run with the ASan quarantine off so that freed addresses are reused"""
+    tasks = []
+    for i, (sd, cnt, nproc) in enumerate(sweep):
+        out = os.path.join(rd, "c09_%d.ndjson" % i)
+        tasks.append((out, [out, "sweep", sd & 0x3FFFFFFF, cnt, nproc], None))
+    for gname, jobs in groups.items():
+        size = 40 if ctx.quick else 150
+        if gname.startswith("K6"):
+            size = 8 if ctx.quick else 40
+        for c in range(0, len(jobs), size):
+            p = os.path.join(rd, "jobs_%s_%d.txt" % (gname, c))
+            open(p, "w").write("\n".join(_line(j) for j in jobs[c:c + size]) + "\n")
+            out = os.path.join(rd, "out_%s_%d.ndjson" % (gname, c))
+            env = dict(ASAN_OPTIONS=hrun.SAN_ENV["ASAN_OPTIONS"] + ":quarantine_size_mb=0:thread_local_quarantine_size_kb=0") if gname.startswith("K7") else None
+            tasks.append((out, [out, mode, p], env))
+    with ThreadPoolExecutor(W) as ex:
+        res = list(ex.map(lambda t: hrun.run(exe, t[1], timeout=timeout, env=t[2]), tasks))
     chunks = []
-    for j, h in zip(jobs, res):
-        ev = hrun.read_ndjson(j[0])
-        if h.san:
-            last = next((e for e in reversed(ev) if e.get("e") == "Fit"), {})
-            ctx.violation("CPCA:%s" % h.san, "sanitizer report while fitting %s:\n%s" % (last, h.err[:1500]), dict(kind="model", fit=last))
-        if h.timed_out:
-            raise InfraError("c09 harness timed out")
-        if h.rc != 0 and not h.san:
-            raise InfraError("c09 harness failed rc=%d\n%s" % (h.rc, h.err[-800:]))
-        if not any(e.get("e") == "Summary" for e in ev):
-            raise InfraError("c09 harness wrote no Summary")
-        if any(e.get("e") == "Abort" and e.get("why") == "watchdog" for e in ev):
-            raise InfraError("c09 harness: wall-clock watchdog fired without the iteration budget (machine load)")
+    for (out, args, env), h in zip(tasks, res):
+        ev = hrun.read_ndjson(out)
+        if extra and h.san:
+            h.san = None
+        _check_run(ctx, h, ev)
         chunks.append([e for e in ev if e.get("e") != "Summary"])
     return chunks
 
 
-def _account(ctx, chunks):
+def _case_of(fit):
+    if not fit:
+        return None
+    return dict(kind="model", seed=fit.get("seed"), n=fit.get("n"), widths=fit.get("widths"), scaling=fit.get("scaling"), npc=fit.get("npc"), dec=fit.get("dec"),
+                nproc=fit.get("nproc", 1), cc=fit.get("cc", 0), off=fit.get("off", 0), bm=fit.get("bm") or [0] * len(fit.get("widths") or []), hist=fit.get("hist", 0),
+                sized=fit.get("sized", 0), deg=fit.get("deg", 0))
+
+
+def _feature_tags(f):
+    """class tags that follow from the drawn class coordinates recorded in the Fit event (the shape tags come from TLC)"""
+    t = ["K6:nproc%d" % f["nproc"]]
+    mx = min(min(f["widths"]), f["n"] - 1)
+    t.append("K1:npc=1" if f["npc"] == 1 else "K1:npc=max" if f["npc"] == mx else "K1:1<npc<max")
+    if f["npc"] == f["n"] - 1:
+        t.append("K1:npc=n-1(rank)")
+    sc = f["scaling"]
+    t.append("scaling%d" % sc)
+    if f["off"]:
+        t += ["K3:offset~1e%dxdecade" % f["off"], "K3:offset-scaling%d" % sc]
+    else:
+        t.append("K3:offset<=1e2xdecade")
+    if f["dec"] <= -6:
+        t.append("K4:magnitude<=1e-6")
+    if f["dec"] >= 4:
+        t.append("K4:magnitude>=1e4" + ("-normalising-option" if sc >= 1 else ""))
+    if any(f["bm"]):
+        t.append("K4:per-block-unit-systems" + ("-normalising-option" if sc >= 1 else ""))
+        if max(f["bm"]) - min(f["bm"]) >= 6:
+            t.append("K4:block-magnitude-ratio>=1e6")
+    if 1 <= f["cc"] <= 6:
+        t += ["K8:constant-variable-in-block", "K5K8:constant-variable-scaling%d" % sc]
+        if f["cc"] in (1, 2, 3, 6):
+            t.append("K5:constant-variable-non-representable")
+    if f["cc"] == 7:
+        t += ["K8:constant-block", "K8:constant-block-scaling%d" % sc]
+    if f["deg"]:
+        t.append({1: "K8:duplicate-objects", 2: "K8:duplicate-variable-in-block", 3: "K8:same-variable-in-two-blocks"}[f["deg"]])
+    if f["hist"]:
+        t.append("K7:other-fits-before,same-data-again-after")
+    if f["sized"]:
+        t.append("K7:projection-into-sized-output-" + {1: "same-shape", 2: "larger", 3: "smaller"}[f["sized"]])
+    return t
+
+
+REQUIRED_CLASSES = (["K1:tall(n>M)", "K1:concat-wide(n<M)", "K1:n=M", "K1:n=M+-1", "K1:block-wider-than-n", "K1:width1-block", "K1:all-width1", "K1:n=width+-1", "K1:equal-widths",
+                     "K1:different-widths", "K1:blocks=2", "K1:blocks=3", "K1:blocks=4", "K1:n=5", "K1:n=30", "K1:largest-shape", "K1:rank-limited-by-n", "K1:npc=1", "K1:npc=max", "K1:1<npc<max",
+                     "K1:npc=n-1(rank)", "K2:n=4k", "K2:n=4k+1", "K2:n=4k-1", "K2:width=4k", "K2:M=4k", "K2:M=4k+1", "K2:M=4k-1",
+                     "K3:offset~1e4xdecade", "K3:offset~1e6xdecade", "K3:offset~1e7xdecade", "K4:magnitude<=1e-6", "K4:magnitude>=1e4", "K4:magnitude>=1e4-normalising-option",
+                     "K4:per-block-unit-systems", "K4:per-block-unit-systems-normalising-option", "K4:block-magnitude-ratio>=1e6",
+                     "K5:constant-variable-non-representable", "K8:constant-variable-in-block", "K8:constant-block", "K8:duplicate-objects", "K8:duplicate-variable-in-block",
+                     "K8:same-variable-in-two-blocks", "K6:nproc1", "K6:nproc2", "K6:nproc3", "K6:nproc16", "K6:width<nproc", "K6:blocks<nproc", "K6:n<nproc", "K6:n=k*nproc+-1",
+                     "K6:n-ragged-slice", "K6:n-idle-worker", "K6:single-index-vector", "K7:other-fits-before,same-data-again-after",
+                     "K7:projection-into-sized-output-same-shape", "K7:projection-into-sized-output-larger", "K7:projection-into-sized-output-smaller"]
+                    + ["K5K8:constant-variable-scaling%d" % s for s in range(6)] + ["K3:offset-scaling%d" % s for s in range(6)] + ["scaling%d" % s for s in range(6)])
+
+
+def _account(ctx, chunks, audit_only=False):
     nfit = ndrop = 0
-    worst = dict(truth=0.0, reproj=0.0, pcaref=0.0, superErr=0, blockref=0, share=0, oracle=0)
-    for ev in chunks:
-        for b in tlc.split_blocks(ev):
-            fit = next((e for e in b if e["e"] == "Fit"), None)
-            if not fit:
-                continue
-            if any(e["e"] == "Dropped" for e in b):
-                ndrop += 1
-                continue
-            nfit += 1
-            ctx.case((fit["blocks"], tuple(fit["widths"]), fit["scaling"], fit["npc"]), fit["diffw"] == 1)
-            sig2 = next((e["sig2"] for e in b if e["e"] == "Spectrum"), [])
-            share = next((e["share"] for e in b if e["e"] == "Shares"), [])
-            m, n = _ncmp(sig2), fit["n"]
-            btc = [max(x, 1e-7) for x in _bounds_t(sig2, math.sqrt(n * 1e-18))]
-            btp = _bounds_t(sig2, math.sqrt(n * 1e-10))
-            st = 0
-            for e in b:
-                if e["e"] == "Cpca":
-                    st += e["totalVar"]
-                    worst["superErr"] = max(worst["superErr"], e["superErr"])
-                    worst["blockref"] = max(worst["blockref"], max(abs(x - y) for x, y in zip(e["blockVar"], e["blockRef"])))
-                    ws = sum(s * min(max(v, 0), 10 ** 9) // 10 ** 9 for s, v in zip(share, e["blockVar"]))
-                    worst["share"] = max(worst["share"], abs(st - ws))
-                    if e["k"] <= m:
-                        worst["reproj"] = max(worst["reproj"], e["reproj"] * 1e-9 / btc[e["k"] - 1])
-                elif e["e"] == "Truth" and e["k"] <= m:
-                    worst["truth"] = max(worst["truth"], e["dist"] * 1e-9 / btc[e["k"] - 1])
-                elif e["e"] == "PcaRef" and e["k"] <= m:
-                    worst["pcaref"] = max(worst["pcaref"], e["dist"] * 1e-9 / (btc[e["k"] - 1] + btp[e["k"] - 1]))
-                elif e["e"] == "Oracle":
-                    worst["oracle"] = max(worst["oracle"], e["err"])
-                elif e["e"] == "Scale":
-                    for k in range(min(m, len(e["terr"]))):
-                        worst["scale_pair"] = max(worst.get("scale_pair", 0.0), e["terr"][k] * 1e-9 / (2 * btc[k]))
-                        worst["scale_var_1e-9"] = max(worst.get("scale_var_1e-9", 0), e["verr"][k], e["berr"][k])
-    if nfit == 0:
+    drops = {}
+    worst = dict(truth=0.0, reproj=0.0, pcaref=0.0, superErr=0, blockref=0, share=0, oracle=0, again=0.0, tvErr=0.0, blocktruth=0.0, proj2=0.0)
+    blocks = [b for ev in chunks for b in tlc.split_blocks(ev)]
+    live = []
+    for b in blocks:
+        fit = next((e for e in b if e["e"] == "Fit"), None)
+        if not fit:
+            continue
+        dr = next((e for e in b if e["e"] == "Dropped"), None)
+        if dr:
+            ndrop += 1
+            drops[dr["why"]] = drops.get(dr["why"], 0) + 1
+            continue
+        live.append((fit, b))
+    if not live:
         raise InfraError("c09 harness produced no fits")
-    fits = [(next((e for e in b if e["e"] == "Fit"), None), next((e["sig2"] for e in b if e["e"] == "Spectrum"), [])) for ev in chunks for b in tlc.split_blocks(ev)]
-    classes = dict(compared=sum(1 for f, s2 in fits if f and _ncmp(s2) >= 1), two_compared=sum(1 for f, s2 in fits if f and _ncmp(s2) >= 2),
-                   multi_component=sum(1 for f, s2 in fits if f and f["npc"] >= 2), different_widths=sum(1 for f, s2 in fits if f and f["diffw"]))
+    stags = _tag_shapes(ctx, {(f["n"], tuple(f["widths"]), f["nproc"]) for f, b in live})
+    mt_calls = 0
+    for fit, b in live:
+        nfit += 1
+        ctx.case((fit["blocks"], tuple(fit["widths"]), fit["n"], fit["scaling"], fit["npc"], fit["nproc"]) + tuple(fit[k] for k in CLS_FIELDS) + tuple(fit["bm"]), fit["diffw"] == 1)
+        for t in list(stags[(fit["n"], tuple(fit["widths"]), fit["nproc"])]) + _feature_tags(fit):
+            ctx.cls(t)
+        done = any(e["e"] == "Truth" for e in b)
+        if done:
+            mt = next((e for e in b if e["e"] == "Mt"), None)
+            its = next((e for e in b if e["e"] == "Iters"), None)
+            if mt is None or its is None or not any(e["e"] == "Proj" for e in b) or not any(e["e"] == "Proj2" for e in b):
+                raise InfraError("c09 harness: Proj / Proj2 / Mt / Iters events missing for %s" % fit)
+            if fit["nproc"] > 1:
+                if mt["calls"] <= 0 or not any(e["e"] == "Slices" for e in b):
+                    raise InfraError("c09: forced nproc=%d but the slice hook (H3) did not fire in the CPCA() under test (%s)" % (fit["nproc"], fit))
+                mt_calls += mt["calls"]
+            if len(its["its"]) != fit["npc"] or min(its["its"]) < 1:
+                raise InfraError("c09: the iteration hook (H4) did not fire for every component of the CPCA() under test (%s: %s)" % (fit, its))
+            if fit["hist"] and not any(e["e"] in ("Again", "Abort") for e in b):
+                raise InfraError("c09: history case without an Again event (%s)" % fit)
+        sig2 = next((e["sig2"] for e in b if e["e"] == "Spectrum"), [])
+        share = next((e["share"] for e in b if e["e"] == "Shares"), [])
+        nzb = next((e["nz"] for e in b if e["e"] == "Shares"), [])
+        m, n = _ncmp(sig2), fit["n"]
+        btc = [max(x, 1e-7) for x in _bounds_t(sig2, math.sqrt(n * 1e-18))]
+        btp = _bounds_t(sig2, math.sqrt(n * 1e-10))
+        st = 0
+        bv = []
+        for e in b:
+            if e["e"] == "Cpca":
+                bv = e["blockVar"]
+                st += e["totalVar"]
+                worst["superErr"] = max(worst["superErr"], e["superErr"])
+                worst["blockref"] = max([worst["blockref"]] + [abs(x - y) for x, y, z in zip(e["blockVar"], e["blockRef"], nzb) if z])
+                ws = sum(s * min(max(v, 0), 10 ** 9) // 10 ** 9 for s, v in zip(share, e["blockVar"]))
+                worst["share"] = max(worst["share"], abs(st - ws))
+                if e["k"] <= m:
+                    worst["reproj"] = max(worst["reproj"], e["reproj"] * 1e-9 / btc[e["k"] - 1])
+            elif e["e"] == "Truth" and e["k"] <= m:
+                worst["truth"] = max(worst["truth"], e["dist"] * 1e-9 / btc[e["k"] - 1])
+                tol = 4 * math.ceil(math.sqrt(n)) + (len(sig2) + 1) * (10 ** 9 // sig2[e["k"] - 1]) + 100
+                worst["tvErr"] = max(worst["tvErr"], e["tvErr"] / tol)
+                btol = 4 * min(sum(btc[:e["k"]]), 0.2) * 1e9 + 10
+                worst["blocktruth"] = max([worst["blocktruth"]] + [abs(x - y) / btol for x, y, z in zip(bv, e["blockTruth"], nzb) if z])
+            elif e["e"] == "Proj2":
+                for k in range(min(m, len(e["err"]))):
+                    worst["proj2"] = max(worst["proj2"], e["err"][k] * 1e-9 / btc[k])
+            elif e["e"] == "PcaRef" and e["k"] <= m:
+                worst["pcaref"] = max(worst["pcaref"], e["dist"] * 1e-9 / (btc[e["k"] - 1] + btp[e["k"] - 1]))
+            elif e["e"] == "Oracle":
+                worst["oracle"] = max(worst["oracle"], e["err"])
+            elif e["e"] == "Scale":
+                for k in range(min(m, len(e["terr"]))):
+                    worst["scale_pair"] = max(worst.get("scale_pair", 0.0), e["terr"][k] * 1e-9 / (2 * btc[k]))
+                    worst["scale_var_1e-9"] = max(worst.get("scale_var_1e-9", 0), e["verr"][k], e["berr"][k])
+            elif e["e"] == "Again":
+                for k in range(min(m, len(e["terr"]))):
+                    worst["again"] = max(worst["again"], e["terr"][k] * 1e-9 / (2 * btc[k]))
+    fits = [(f, next((e["sig2"] for e in b if e["e"] == "Spectrum"), [])) for f, b in live]
+    classes = dict(compared=sum(1 for f, s2 in fits if _ncmp(s2) >= 1), two_compared=sum(1 for f, s2 in fits if _ncmp(s2) >= 2),
+                   multi_component=sum(1 for f, s2 in fits if f["npc"] >= 2), different_widths=sum(1 for f, s2 in fits if f["diffw"]))
     classes["magnitude_pairs"] = sum(1 for ev in chunks for e in ev if e["e"] == "Scale")
-    classes["small_magnitude_multi_component"] = sum(1 for f, s2 in fits if f and f["scaling"] == 0 and f["dec"] <= -6 and f["npc"] >= 2)
-    classes["large_magnitude"] = sum(1 for f, s2 in fits if f and f["scaling"] == 0 and f["dec"] >= 4)
-    for sc in range(0, 6):
-        classes["scaling_%d" % sc] = sum(1 for f, s2 in fits if f and f["scaling"] == sc)
+    classes["small_magnitude_multi_component"] = sum(1 for f, s2 in fits if f["scaling"] == 0 and f["dec"] <= -6 and f["npc"] >= 2)
+    classes["large_magnitude"] = sum(1 for f, s2 in fits if f["scaling"] == 0 and f["dec"] >= 4)
+    classes["constant_variable_compared"] = sum(1 for f, s2 in fits if 1 <= f["cc"] <= 6 and _ncmp(s2) >= 1)
+    classes["again_events"] = sum(1 for ev in chunks for e in ev if e["e"] == "Again")
+    classes["proj2_fewer_components"] = sum(1 for ev in chunks for e in ev if e["e"] == "Proj2" and e["req"] == 1)
+    classes["proj2_more_components"] = sum(1 for ev in chunks for e in ev if e["e"] == "Proj2" and e["req"] > 1)
+    classes["slices_events"] = sum(1 for ev in chunks for e in ev if e["e"] == "Slices")
+    classes["zero_block_models"] = sum(1 for ev in chunks for e in ev if e["e"] == "Shares" and 0 in e["nz"])
     for nbk in (2, 3, 4):
-        classes["blocks_%d" % nbk] = sum(1 for f, s2 in fits if f and f["blocks"] == nbk)
+        classes["blocks_%d" % nbk] = sum(1 for f, s2 in fits if f["blocks"] == nbk)
     ctx.steps["classes"] = classes
-    missing = [k for k, v in classes.items() if v == 0]
-    if missing:
-        raise InfraError("c09 recording does not exercise: %s (vacuous antecedents)" % missing)
     ctx.steps["worst_observed"] = {k: (round(v, 4) if isinstance(v, float) else v) for k, v in worst.items()}
-    ctx.steps["models"] = dict(fitted=nfit, dropped_outside_quantifier=ndrop)
+    ctx.steps["models"] = dict(fitted=nfit, dropped_outside_quantifier=ndrop, dropped_why=drops)
+    ctx.steps["mt_kernel_calls_in_fits_under_test"] = mt_calls
     return nfit, ndrop
+
+
+def _vacuity(ctx):
+    """every class the check claims was really executed (evaluated after the validation: a violating tree may abort cases)"""
+    classes, m = ctx.steps["classes"], ctx.steps["models"]
+    missing = [k for k, v in classes.items() if v == 0] + [k for k in REQUIRED_CLASSES if not ctx.classes.get(k)]
+    if not ctx.quick:
+        missing += [k for k in ("K6:nproc5", "K6:nproc24") if not ctx.classes.get(k)]
+    if missing and not ctx.violations:
+        raise InfraError("c09 recording does not exercise: %s (vacuous antecedents)" % missing)
+    nfit, ndrop = m["fitted"], m["dropped_outside_quantifier"]
+    if ndrop > 0.25 * (nfit + ndrop):
+        raise InfraError("c09: %d of %d planned cases were dropped as outside the quantifier (%s): the generator is off target" % (ndrop, nfit + ndrop, m["dropped_why"]))
 
 
 def _name(block, ev):
@@ -170,17 +500,28 @@ def _name(block, ev):
     fit = next((e for e in block if e["e"] == "Fit"), {})
     sig2 = next((e["sig2"] for e in block if e["e"] == "Spectrum"), [])
     share = next((e["share"] for e in block if e["e"] == "Shares"), [])
+    nzb = next((e["nz"] for e in block if e["e"] == "Shares"), [1] * len(share))
     n = fit.get("n", 5)
     m = _ncmp(sig2)
     btc = [max(x, 1e-7) for x in _bounds_t(sig2, math.sqrt(n * 1e-18))]
     btp = _bounds_t(sig2, math.sqrt(n * 1e-10))
     e = ev.get("e")
+    if e == "Fit":
+        return "generator", "recorded case outside the quantifier (PropFitC): %s" % ev
     if e == "Diverge":
         return "no-convergence", "NIPALS loop of %s did not converge within %s iterations (component %s)" % (ev.get("site"), ev.get("it"), ev.get("comp"))
     if e == "Abort":
         return ("no-convergence" if ev.get("why") == "iteration-budget" else "crash:%s" % ev.get("why")), "fit did not finish: %s" % ev
     if e == "Oracle":
         return "oracle", "oracles disagree: %s" % ev
+    if e == "Proj":
+        return "reproj:shape", "CPCAScorePredictor left a %sx%s super-score matrix for %s objects and %s components (output sized before: kind %s)" % (
+            ev.get("rows"), ev.get("cols"), n, fit.get("npc"), fit.get("sized"))
+    if e == "Proj2":
+        return "reproj:components", "CPCAScorePredictor asked for %s components of a %s-component model left a %sx%s matrix, distances to the model's super scores %s (1e-9)" % (
+            ev.get("req"), fit.get("npc"), ev.get("rows"), ev.get("cols"), ev.get("err"))
+    if e == "Slices":
+        return "mt:slices", "threaded kernel (nproc %s) does not hand every index of a length-%s result to exactly one worker: from %s to %s" % (fit.get("nproc"), ev.get("len"), ev.get("fr"), ev.get("to"))
     if e == "Cpca":
         prev, st, last = [0] * fit.get("blocks", 0), 0, 10 ** 9
         for x in block:
@@ -195,8 +536,8 @@ def _name(block, ev):
                 return "blockvar", "component %d block %d: explained variance %.6f %% outside [0,100]" % (ev["k"], b + 1, v * 1e-7)
             if v < prev[b] - 3:
                 return "blockvar", "component %d block %d: cumulative explained variance decreases (%.6f %% after %.6f %%)" % (ev["k"], b + 1, v * 1e-7, prev[b] * 1e-7)
-            if abs(v - r) > 10:
-                return "blockvar", "component %d block %d: explained variance %.6f %% but the model's own residual leaves %.6f %% explained (not cumulative?)" % (ev["k"], b + 1, v * 1e-7, r * 1e-7)
+            if nzb[b] and abs(v - r) > 10:
+                return "blockvar", "component %d block %d: explained variance %.6f %% but the model's own residual leaves %.6f %% explained (not cumulative / wrong block total?)" % (ev["k"], b + 1, v * 1e-7, r * 1e-7)
         if ev["totalVar"] < 0 or ev["totalVar"] > last + 3 or st + ev["totalVar"] > 10 ** 9 + 3:
             return "totalvar", "component %d: total explained variance %.6f %% (previous %.6f %%, running sum %.6f %%)" % (ev["k"], ev["totalVar"] * 1e-7, last * 1e-7, (st + ev["totalVar"]) * 1e-7)
         ws = sum(s * min(max(v, 0), 10 ** 9) // 10 ** 9 for s, v in zip(share, ev["blockVar"]))
@@ -210,10 +551,22 @@ def _name(block, ev):
     if e == "Scale":
         return "equivariance:scale", ("CPCA(2^%d X) differs from CPCA(X) (data decade 1e%s): normalised super scores %s, total explained variance (relative) %s, "
                                       "block explained variance %s (1e-9 units, per component)" % (ev["kexp"], fit.get("dec"), ev["terr"], ev["verr"], ev["berr"]))
+    if e == "Again":
+        return "history", ("the same data fitted again after other fits in the same process gives another model: normalised super scores differ by %s, total explained variance (relative) %s "
+                           "(1e-9 units, per component)" % (ev["terr"], ev["verr"]))
     if e == "Truth":
         if ev["k"] <= m and ev["dist"] * 1e-9 > btc[ev["k"] - 1]:
             return "super", "component %d: super score differs from +-(PCA score of the block-scaled concatenation, oracle) by %.3g relative (bound %.3g)" % (ev["k"], ev["dist"] * 1e-9, btc[ev["k"] - 1])
-        return "totalvar", "component %d: total explained variance differs from lambda_k/trace of the concatenation by %.3g relative" % (ev["k"], ev["tvErr"] * 1e-9)
+        tv = next((x["totalVar"] for x in block if x["e"] == "Cpca" and x["k"] == ev["k"]), 0)
+        bvk = next((x["blockVar"] for x in block if x["e"] == "Cpca" and x["k"] == ev["k"]), [])
+        tol = 4 * math.ceil(math.sqrt(n)) + (len(sig2) + 1) * (10 ** 9 // max(1, sig2[ev["k"] - 1])) + 100 if ev["k"] <= len(sig2) else 0
+        if ev["k"] <= m and ev["tvErr"] <= tol:
+            btol = 4 * min(sum(btc[:ev["k"]]), 0.2) * 1e9 + 10
+            for b, (v, r, z) in enumerate(zip(bvk, ev.get("blockTruth", []), nzb)):
+                if z and abs(v - r) > btol:
+                    return "blockvar", ("component %d block %d: explained variance %.6f %% but the first %d PCA scores of the concatenation (oracle) explain %.6f %% of that block "
+                                        "(wrong block total / not cumulative)" % (ev["k"], b + 1, v * 1e-7, ev["k"], r * 1e-7))
+        return "totalvar", "component %d: total explained variance %.5f %% differs from that PCA's explained variance (lambda_k/trace of the concatenation, oracle) by %.3g relative" % (ev["k"], tv * 1e-7, ev["tvErr"] * 1e-9)
     if e == "PcaRef":
         return "pcaref", ("component %d: library PCA on the block-scaled concatenation: score distance %.3g (bound %.3g), explained variance %.7f %% vs CPCA total %.7f %% "
                           "(CPCA itself agrees with the oracle: the deviation is on PCA's side)" % (
@@ -228,72 +581,198 @@ def _validate(ctx, chunks, label, max_rounds):
         nm, what = _name(block, ev)
         if nm == "oracle":
             raise InfraError("C09 oracles (Jacobi / dsyev / construction) disagree on %s: %s" % (fit, ev))
-        ctx.violation("CPCA:%s" % nm, "n=%s widths=%s scaling=%s npc=%s decade=%s seed=%s: %s" % (
-            fit.get("n"), fit.get("widths"), fit.get("scaling"), fit.get("npc"), fit.get("dec"), fit.get("seed"), what),
-            dict(kind="model", seed=fit.get("seed"), n=fit.get("n"), widths=fit.get("widths"), scaling=fit.get("scaling"), npc=fit.get("npc"), dec=fit.get("dec"),
-                 nproc=fit.get("nproc", 1), event=ev))
+        if nm == "generator":
+            raise InfraError("C09 generator left the quantifier: %s" % fit)
+        cls = ", ".join("%s=%s" % (k, fit.get(k)) for k in ("nproc", "cc", "off", "bm", "hist", "sized", "deg") if fit.get(k) not in (None, 0, 1 if k == "nproc" else 0) and (k != "bm" or any(fit.get(k))))
+        ctx.violation("CPCA:%s" % nm, "n=%s widths=%s scaling=%s npc=%s decade=%s seed=%s%s: %s" % (
+            fit.get("n"), fit.get("widths"), fit.get("scaling"), fit.get("npc"), fit.get("dec"), fit.get("seed"), (" [" + cls + "]") if cls else "", what),
+            dict(_case_of(fit) or {}, event=ev))
 
     def one(args):
         i, ev = args
-        return trace.check_trace(ctx, "TraceCpca", "Trace_Cpca.cfg", "Trace_Cpca_prop.cfg", ev, on_reject, drop="block", max_rounds=max_rounds,
+        return trace.check_trace(ctx, "TraceCpca", "Trace_Cpca.cfg", "Trace_Cpca_prop.cfg", ev + [{"e": "Reset"}], on_reject, drop="block", max_rounds=max_rounds,
                                  label="%s_%d" % (label, i), timeout=1500)
-    with ThreadPoolExecutor(6) as ex:
-        return sum(ex.map(one, list(enumerate(chunks))))
+    # every model starts from a Reset: small recordings are concatenated so that one TLC start validates ~75 models or more
+    merged, cur = [], []
+    for ch in chunks:
+        cur = cur + ch
+        if sum(1 for e in cur if e.get("e") == "Fit") >= 75:
+            merged.append(cur)
+            cur = []
+    if cur:
+        merged.append(cur)
+    with ThreadPoolExecutor(W) as ex:
+        return sum(ex.map(one, list(enumerate(merged))))
 
 
 def _binding(ctx, chunks):
-    blocks = [b for ch in chunks[:3] for b in tlc.split_blocks(ch) if any(e["e"] == "PcaRef" for e in b)][:15]
-    ev = [e for b in blocks for e in b]
-    if not any(e["e"] == "Truth" for e in ev) and ctx.violations:
-        ctx.note("binding self-test skipped: no completed model in the recording (violations reported above)")
-        return
+    allb = [b for ch in chunks for b in tlc.split_blocks(ch) if any(e["e"] == "PcaRef" for e in b) and _ncmp(next((e["sig2"] for e in b if e["e"] == "Spectrum"), [])) >= 1
+            and not any(e["e"] in ("Abort", "Diverge") for e in b)]
+    if not allb:
+        if ctx.violations:
+            ctx.note("binding self-test skipped: no completed model in the recording (violations reported above)")
+            return
+        raise InfraError("c09: no completed model for the binding self-tests")
+    pick = allb[:10]
+    for want in ("Again", "Slices"):
+        pick += [b for b in allb if any(e["e"] == want for e in b)][:2]
+    pick += [b for b in allb if any(e["e"] == "Cpca" and e["k"] == 2 for e in b)][:2]
+    pick += [b for b in allb if any(e["e"] == "Fit" and 1 <= e["cc"] <= 6 for e in b)][:2]
+    ev = [e for b in pick for e in b]
 
-    def corrupt(evs):
-        for e in evs:
-            if e["e"] == "Truth" and e["k"] == 1:
-                e["dist"] = min(2000000000, max(1, e["dist"]) * 1000000)
-                return True
-        return False
-    trace.binding_selftest(ctx, "TraceCpca", "Trace_Cpca_prop.cfg", ev, corrupt, "binding_truth_dist_x1e6")
+    def first(kind, fn):
+        def corrupt(evs):
+            for e in evs:
+                if e["e"] == kind and fn(e):
+                    return True
+            return False
+        return corrupt
 
-    def corrupt2(evs):
-        for e in evs:
-            if e["e"] == "Cpca" and e["k"] == 2:
-                e["blockVar"][0] = e["blockVar"][0] // 2        # cumulative variance falling back: must be rejected
-                return True
-        return False
+    def c_truth(e):
+        if e["k"] != 1:
+            return False
+        e["dist"] = min(2000000000, max(1, e["dist"]) * 1000000)
+        return True
+
+    def c_tv(e):
+        if e["k"] != 1:
+            return False
+        e["tvErr"] = 80000000          # 8 % relative: the size of the seeded "trace by width" deviation
+        return True
+
+    def c_bv(e):
+        if e["k"] != 2:
+            return False
+        e["blockVar"][0] = e["blockVar"][0] // 2        # cumulative variance falling back: must be rejected
+        return True
+
+    def c_bref(e):
+        if not any(v > 60000000 for v in e["blockVar"]):
+            return False
+        e["blockVar"] = [v - 50000000 if v > 60000000 else v for v in e["blockVar"]]      # 5 percentage points below the model's own residual
+        return True
+
+    def c_btruth(e):
+        if e["k"] != 1 or not any(v > 60000000 for v in e["blockTruth"]):
+            return False
+        e["blockTruth"] = [v - 50000000 if v > 60000000 else v for v in e["blockTruth"]]
+        return True
+
+    def c_proj2(e):
+        if e["req"] != 1:
+            return False
+        e["cols"] = 2
+        return True
+
+    def c_proj(e):
+        e["rows"] += 1
+        return True
+
+    def c_again(e):
+        e["terr"][0] = 2000000000
+        return True
+
+    def c_slices(e):
+        e["to"][-1] -= 1
+        return True
+
+    def c_fit(e):
+        e["cc"] = 9
+        return True
+
+    def c_mt(e):
+        if e["nproc"] <= 1:
+            return False
+        e["calls"] = 0
+        return True
+
+    def c_iters(e):
+        e["its"][0] = 0
+        return True
+    tests = [("Truth", c_truth, "binding_truth_dist_x1e6", "Trace_Cpca_prop.cfg"), ("Truth", c_tv, "binding_truth_total_variance", "Trace_Cpca_prop.cfg"),
+             ("Cpca", c_bref, "binding_blockvar_vs_residual", "Trace_Cpca_prop.cfg"), ("Proj", c_proj, "binding_proj_shape", "Trace_Cpca_prop.cfg"),
+             ("Fit", c_fit, "binding_fit_quantifier", "Trace_Cpca_prop.cfg"), ("Iters", c_iters, "binding_iters_impl", "Trace_Cpca.cfg"),
+             ("Truth", c_btruth, "binding_truth_block_variance", "Trace_Cpca_prop.cfg")]
+    if any(e["e"] == "Proj2" and e["req"] == 1 for e in ev):
+        tests.append(("Proj2", c_proj2, "binding_proj2_components", "Trace_Cpca_prop.cfg"))
     if any(e["e"] == "Cpca" and e["k"] == 2 for e in ev):
-        trace.binding_selftest(ctx, "TraceCpca", "Trace_Cpca_prop.cfg", ev, corrupt2, "binding_blockvar_monotone")
+        tests.append(("Cpca", c_bv, "binding_blockvar_monotone", "Trace_Cpca_prop.cfg"))
+    if any(e["e"] == "Again" for e in ev):
+        tests.append(("Again", c_again, "binding_again", "Trace_Cpca_prop.cfg"))
+    if any(e["e"] == "Slices" for e in ev):
+        tests += [("Slices", c_slices, "binding_slices_cover", "Trace_Cpca_prop.cfg"), ("Mt", c_mt, "binding_mt_impl", "Trace_Cpca.cfg")]
+
+    def run1(t):
+        kind, fn, label, cfg = t
+        trace.binding_selftest(ctx, "TraceCpca", cfg, ev, first(kind, fn), label)
+    with ThreadPoolExecutor(W) as ex:
+        list(ex.map(run1, tests))
+    ctx.steps["binding_selftests"] = [t[2] for t in tests]
+
+
+def _refit_extra(ctx, exe, rd, shapes):
+    """outside the statement of C09: CPCA() into a model object that already holds a fit (EXTRA-FINDING only, a trace of its own)"""
+    rng = random.Random(ctx.seed + 4711)
+    small = sorted(k for k in shapes if k[2] == 1 and sum(k[1]) <= 12 and k[0] <= 12)
+    jobs = [_job(rng, rng.choice(small), scaling=i % 6, dec=0) for i in range(4 if ctx.quick else 24)]
+    chunks = _record(ctx, exe, rd, [], {"refit": jobs}, mode="refit", extra=True)
+    n = sum(1 for ch in chunks for e in ch if e["e"] in ("Refit", "Abort"))
+    if n == 0:
+        raise InfraError("c09 refit mode produced no Refit event")
+
+    ev = [e for ch in chunks for e in ch] + [{"e": "Reset"}]
+    ok, upto, r = tlc.validate_trace("TraceCpca", "Trace_Cpca_prop.cfg", ev, timeout=600)
+    ctx.add_tlc(r, "trace_refit")
+    if not ok:
+        bad = ev[upto] if upto < len(ev) else {}
+        fit = next((e for e in reversed(ev[:upto + 1]) if e.get("e") == "Fit"), {})
+        ctx.extra("CPCA:history:refit-into-used-model",
+                  "CPCA() called on a CPCAMODEL that already holds a fit does not rebuild it (n=%s widths=%s scaling=%s npc=%s seed=%s: %s): scaling_factor, colaverage/colscaling, block_scores, "
+                  "block_loadings, total_expvar and block_expvar are appended to, so the model keeps the first fit's tables in front" % (
+                      fit.get("n"), fit.get("widths"), fit.get("scaling"), fit.get("npc"), fit.get("seed"), bad))
+    ctx.steps["refit_cases"] = n
 
 
 def run(ctx):
     ctx.assumptions += [
         "sampled inputs (seeded); no exhaustiveness claim: level exploration",
-        "reference = eigen-decomposition (long-double cyclic Jacobi, cross-checked per model against LAPACK dsyev and, for scaling 0, the constructed SVD) of the concatenation of "
+        "reference = eigen-decomposition (long-double cyclic Jacobi, cross-checked per model against LAPACK dsyev and, for scaling 0 without class features, the constructed SVD) of the concatenation of "
         "MatrixPreprocess(block)/sqrt(width) computed by the harness; MatrixPreprocess is the definition of 'preprocessed identically' (C10)",
         "bounds computed by TLC from the logged spectrum: K = 30, CPCA eps = sqrt(n*1e-18) with floor 1e-7, PCA eps = sqrt(n*1e-10) for the PcaRef comparison; components judged up to the first squared singular ratio > 0.7225",
-        "inputs whose column scale falls into the zero-scale guard zone (< 1.2e-2) or with a constant block are dropped and counted",
-        "the harness's residual evaluation and quantisation are trusted; binding self-test multiplies a logged distance by 1e6 and insists on rejection",
+        "inputs whose column scale falls into the zero-scale guard zone (< 1.2e-2, constant variables excepted), with every block constant, with a component requested beyond the numerical rank, "
+        "with a value at the missing code or (added classes only) with an unseparated requested spectrum are dropped and counted by reason",
+        "the harness's residual evaluation and quantisation are trusted; binding self-tests corrupt one field of every event kind and insist on rejection",
     ]
-    _model_checks(ctx)
+    bg = ThreadPoolExecutor(2)
+    fut_model = bg.submit(_model_checks, ctx)          # (M) is independent of the recording: a few small TLC runs beside the harness processes
+    shapes = _gen(ctx)
     lib = build.build_lib("san")
     exe = build.build_harness("c09", ["c09_drv.c"], lib)
     rd = tlc.rundir()
     try:
         s = ctx.seed
-        plan = [(s + 977 * i, 75, 1) for i in range(4)] if ctx.quick else [(s + 977 * i, 1500, 1) for i in range(6)] + [(s + 5003, 60, 2), (s + 5004, 30, 16)]
-        chunks = _record(ctx, exe, rd, plan)
-        nfit, ndrop = _account(ctx, chunks)
-        ctx.note("recorded %d models (%d dropped as outside the quantifier); worst observed: %s" % (nfit, ndrop, ctx.steps["worst_observed"]))
-        for b in tlc.split_blocks(chunks[0])[:2]:
+        sweep = [(s + 977 * i, 75, 1) for i in range(4)] if ctx.quick else [(s + 977 * i, 1500, 1) for i in range(6)] + [(s + 5003, 60, 2), (s + 5004, 30, 16)]
+        audit = os.environ.get("C09_AUDIT_OLD") == "1"
+        groups = {} if audit else _plan(ctx, shapes)
+        chunks = _record(ctx, exe, rd, sweep, groups)
+        fut_acc = bg.submit(_account, ctx, chunks, audit)       # accounting + the TLC run that tags the executed shapes, beside the validation
+        for b in tlc.split_blocks(chunks[0])[:2] + [b for ch in chunks[len(sweep):] for b in tlc.split_blocks(ch)[:1]][:4]:
             ctx.sample(b)
         ctx.cov["rule"] = ("random multi-block data (2..4 blocks x 1..8 variables, 5..30 objects, scalings 0..5, npc 1..min width; data decades 1e-8..1e6 for scaling 0 plus a paired run rescaled by 2^+-(4..27), decades 1..1e3 for scalings 1..5) whose block-scaled "
-                           "concatenation is built from a known separated SVD; one evaluation = one CPCA model (+ projection + library PCA reference) validated by TLC; "
-                           "distinct = distinct (blocks, widths, scaling, npc); non-trivial = at least two blocks of different width")
+                           "concatenation is built from a known separated SVD, plus stratified class cases drawn from the shapes CpcaGen.tla emits (planned per group: %s); one evaluation = one CPCA model (+ projection + library PCA reference) validated by TLC; "
+                           "distinct = distinct (blocks, widths, n, scaling, npc, nproc, class coordinates); non-trivial = at least two blocks of different width" % {k: len(v) for k, v in groups.items()})
         rej = _validate(ctx, chunks, "trace_cpca", 4 if ctx.quick else 10)
+        fut_model.result()
+        nfit, ndrop = fut_acc.result()
+        ctx.note("recorded %d models (%d dropped as outside the quantifier: %s); worst observed: %s" % (nfit, ndrop, ctx.steps["models"]["dropped_why"], ctx.steps["worst_observed"]))
+        if not audit:
+            _vacuity(ctx)
         ctx.traces(max(0, nfit - rej))
         _binding(ctx, chunks)
+        if not audit:
+            _refit_extra(ctx, exe, rd, shapes)
     finally:
+        bg.shutdown(wait=True)
         shutil.rmtree(rd, ignore_errors=True)
 
 
@@ -307,7 +786,10 @@ def replay(ctx, body):
     try:
         out = os.path.join(rd, "replay.ndjson")
         w = list(case["widths"])
-        h = hrun.run(exe, [out, "one", case["seed"], case["n"], case["scaling"], case["npc"], case["dec"], case.get("nproc") or 1, len(w)] + w, timeout=900)
+        j = dict(seed=case["seed"], n=case["n"], scaling=case["scaling"], npc=case["npc"], dec=case["dec"], nproc=case.get("nproc") or 1, w=w, cc=case.get("cc", 0), off=case.get("off", 0),
+                 bm=list(case.get("bm") or [0] * len(w)), hist=case.get("hist", 0), sized=case.get("sized", 0), deg=case.get("deg", 0))
+        env = dict(ASAN_OPTIONS=hrun.SAN_ENV["ASAN_OPTIONS"] + ":quarantine_size_mb=0:thread_local_quarantine_size_kb=0") if j["hist"] or j["sized"] else None
+        h = hrun.run(exe, [out, "job"] + _line(j).split(), timeout=900, env=env)
         ev = [e for e in hrun.read_ndjson(out) if e.get("e") != "Summary"]
         if h.san:
             ctx.violation("CPCA:%s" % h.san, h.err[:1500], case)
@@ -316,7 +798,7 @@ def replay(ctx, body):
         ctx.case(("replay", len(w), tuple(w), case["scaling"], case["npc"]))
         ctx.case(("replay-seed", case["seed"]))
         ctx.sample(ev)
-        ctx.cov["rule"] = "replay of one recorded model (seed, n, widths, scaling, npc, decade) refitted on the current tree"
+        ctx.cov["rule"] = "replay of one recorded model (seed, n, widths, scaling, npc, decade, class coordinates) refitted on the current tree"
         rej = _validate(ctx, [ev], "replay", 3)
         ctx.traces(0 if rej else 1)
     finally:
